@@ -553,20 +553,16 @@ impl QueryRouter {
 
                 // Likely a read-only query
                 Query(query) => {
-                    if primary_set_based_on_activity {
-                        // If we already set the role based on activity, we don't need to do it again
-                        continue;
-                    }
+                    // Check if the tables in the query have been written to recently.
+                    // If we already set the role based on activity, we don't need to do it again.
+                    if !primary_set_based_on_activity
+                        && self.pool_settings.db_activity_based_routing
+                        && self.query_handles_tables_in_mutation_cache(query)
+                    {
+                        debug!("Query handles tables in mutation cache, going to primary");
 
-                    if self.pool_settings.db_activity_based_routing {
-                        // Check if the tables in the query have been written to recently
-                        if self.query_handles_tables_in_mutation_cache(query) {
-                            debug!("Query handles tables in mutation cache, going to primary");
-
-                            self.active_role = Some(Role::Primary);
-                            primary_set_based_on_activity = true;
-                            continue;
-                        }
+                        self.active_role = Some(Role::Primary);
+                        primary_set_based_on_activity = true;
                     }
 
                     // Decide the role before anything below can bail out.
@@ -577,7 +573,7 @@ impl QueryRouter {
                         // The rest of the message must not move it off the primary.
                         visited_write_statement = true;
                         self.active_role = Some(Role::Primary);
-                    } else if !visited_write_statement {
+                    } else if !visited_write_statement && !primary_set_based_on_activity {
                         // If we already visited a write statement, we should be going to the primary.
                         self.active_role = match self.primary_reads_enabled() {
                             false => Some(Role::Replica), // If primary should not be receiving reads, use a replica.
